@@ -662,9 +662,32 @@ func tracesOracle(prop string, res *RunResult) []Violation {
 						want[key{ts, s.Svc}] = append(want[key{ts, s.Svc}], s)
 					}
 				}
+				// a run is visible through the rows it wrote only: a run whose window held no entry span (a span
+				// without a parent, or whose parent is unknown or belongs to another service) wrote none. So an
+				// uncovered span counts only if it is an entry span itself.
+				svcAll := map[string]string{}
+				for _, s := range all {
+					svcAll[s.Span] = s.Svc
+				}
+				isEntry := func(s arrived) bool {
+					if s.Parent == "" {
+						return true
+					}
+					ps, ok := svcAll[s.Parent]
+					return !ok || ps != s.Svc
+				}
+				anyEntry := false
+				for _, s := range all {
+					if isEntry(s) {
+						anyEntry = true
+					}
+				}
 				for i, s := range all {
 					if covered[i] == 0 && e.SimMs < s.atMs+310_000 {
 						continue // the run that covers it is not due yet
+					}
+					if covered[i] == 0 && !isEntry(s) {
+						continue
 					}
 					if covered[i] != 1 {
 						bad("red:span-not-covered-by-exactly-one-run", "%s: span %s of trace %s (arrived %d) lies in the window of %d RED runs (runs at %v)", where, s.Span, s.Trace, s.atMs, covered[i], keysOfRuns(runs))
@@ -711,7 +734,7 @@ func tracesOracle(prop string, res *RunResult) []Violation {
 						bad("red:rows-per-service-and-run", "%s: service %s run %d (%d entry spans): %d rows", where, k.svc, k.ts, len(ws), gotRows[k])
 					}
 				}
-				if len(all) > 0 && len(runs) == 0 {
+				if len(all) > 0 && anyEntry && len(runs) == 0 {
 					bad("red:no-run", "%s: spans were ingested and the clock ran 10 minutes, no RED row exists", where)
 				}
 			}
